@@ -162,7 +162,10 @@ pub fn run_deadline(sim: &Sim, _idx: u64) {
             _ => Some(Duration::from_millis(base_ms * sim.pick(&[2u64, 10]))),
         }
     };
-    let caller = mk(sim);
+    // the caller's header: absent, a proper timeout, or a malformed value (which must be ignored:
+    // the call then behaves exactly as if no header had been sent)
+    let malformed: Option<&str> = if sim.chance(1, 5) { Some(sim.pick(&["10x", "123456789S", "+5S", "S", "5", "1.5S", "5 S", "-1m", "u5"])) } else { None };
+    let caller = if malformed.is_some() { None } else { mk(sim) };
     let server = mk(sim);
     let endpoint = mk(sim);
     // what the caller's timeout denotes on the wire (finest unit that fits 8 digits, rounded down)
@@ -185,8 +188,11 @@ pub fn run_deadline(sim: &Sim, _idx: u64) {
         },
     };
     sim.nontrivial();
-    sim.sample(|| format!("caller={caller:?} server={server:?} endpoint={endpoint:?} -> D={d:?}; handler latency={latency:?}"));
-    sim.ev(|| format!("config: caller={caller:?} server={server:?} endpoint={endpoint:?} -> D={d:?}; handler latency={latency:?}"));
+    sim.sample(|| format!("caller={caller:?} malformed_header={malformed:?} server={server:?} endpoint={endpoint:?} -> D={d:?}; handler latency={latency:?}"));
+    sim.ev(|| format!("config: caller={caller:?} malformed_header={malformed:?} server={server:?} endpoint={endpoint:?} -> D={d:?}; handler latency={latency:?}"));
+    if malformed.is_some() && d.is_some() {
+        sim.probe("malformed-header-with-configured-timeout");
+    }
     let netcfg = NetCfg { frag: sim.chance(1, 2), ..NetCfg::ideal() };
     let horizon = Duration::from_secs(3600);
     let res = run_sim(sim, horizon, || async {
@@ -203,6 +209,9 @@ pub fn run_deadline(sim: &Sim, _idx: u64) {
         req.metadata_mut().insert("sim-call", "1".parse().unwrap());
         if let Some(c) = caller {
             req.set_timeout(c);
+        }
+        if let Some(m) = malformed {
+            req.metadata_mut().insert("grpc-timeout", m.parse().unwrap());
         }
         let t0 = tokio::time::Instant::now();
         let r = client.unary(req).await;
@@ -237,7 +246,7 @@ pub fn run_deadline(sim: &Sim, _idx: u64) {
             } else if finishes_after {
                 sim.probe("cut-off-at-deadline");
                 if !cut(&outcome) {
-                    v9(sim, "deadline-not-enforced", format!("D={d:?} (caller {caller:?}, server {server:?}, endpoint {endpoint:?}), latency {lat:?}: outcome {outcome:?} after {elapsed:?}"));
+                    v9(sim, "deadline-not-enforced", format!("D={d:?} (caller {caller:?}, malformed header {malformed:?}, server {server:?}, endpoint {endpoint:?}), latency {lat:?}: outcome {outcome:?} after {elapsed:?}"));
                 } else if elapsed + Duration::from_micros(1) < d.saturating_sub(Duration::from_micros(1)) {
                     v9(sim, "cut-off-before-deadline", format!("D={d:?}: cut off after only {elapsed:?}"));
                 } else if elapsed > d + G {
